@@ -1,3 +1,10 @@
+mod c19;
+mod c24;
+mod c26;
+mod c49;
+mod c56;
+mod chan;
+
 fn main() {
-    vcore::runner::main(&[])
+    vcore::runner::main(&[("C19", c19::run), ("C24", c24::run), ("C26", c26::run), ("C49", c49::run), ("C56", c56::run)])
 }
